@@ -45,11 +45,13 @@ let handle (fs : string list) : string =
       show t' ^ "\t" ^ string_of_int (int_of_nat n) ^ "\t" ^ (if has_raw t' then "1" else "0")
   | ["include"; fie; sphinx; name; arg; exists] ->
       let st = { file_insertion_enabled = (fie = "1"); has_sphinx_env = (sphinx = "1") } in
+      (* resolve: ordinary argument -> "P" ^ arg ; resolve_std: inner of <..> -> "S" ^ inner *)
       let (out, tr) = include_run_prefix st (str_of_field name) (str_of_field arg)
-                        (fun a -> a) (fun p -> if exists = "1" then Some [] else None) in
+                        (fun a -> n_of_int 80 :: a) (fun a -> n_of_int 83 :: a)
+                        (fun p -> if exists = "1" then Some [] else None) in
       (match out with RNodes _ -> "nodes" | RError (l, _) -> "error" ^ string_of_int (int_of_n l))
-      ^ "\t" ^ String.concat "," (List.map (function FsRead _ -> "read" | FsResolve _ -> "resolve"
-                                                     | FsDepend _ -> "depend") tr)
+      ^ "\t" ^ String.concat ";" (List.map (function FsRead p -> "read:" ^ field_of_str p | FsResolve _ -> "resolve"
+                                                     | FsDepend p -> "depend:" ^ field_of_str p) tr)
   | _ -> "!badcmd"
 
 let () = main handle
